@@ -113,11 +113,17 @@ def _worker(mod, prop, tier, seed, shard, nshards, driver_bin, budget_s, conn):
 
 
 def load_known(prop):
-    p = os.path.join(VERIF, 'known_findings.json')
-    if not os.path.exists(p):
-        return {}
-    data = json.load(open(p))
-    return {f['signature']: f for f in data.get('findings', []) if f.get('property') == prop}
+    """Listed findings of one property: known_findings.json plus known/<prop>.json (same entry format; the
+    per-property files exist so that monitors can be developed independently; tools/kf.py merge folds them in)."""
+    out = {}
+    for p in (os.path.join(VERIF, 'known_findings.json'), os.path.join(VERIF, 'known', prop + '.json')):
+        if not os.path.exists(p):
+            continue
+        data = json.load(open(p))
+        for f in data.get('findings', []):
+            if f.get('property') == prop:
+                out[f['signature']] = f
+    return out
 
 
 def write_evidence(prop, ev):
